@@ -34,6 +34,10 @@ CHECKS = {
          "deterministic simulation with fault injection: per sampled scenario, every raw I/O call of the operation is failed with each plausible errno and interrupted before / after / torn inside (single faults enumerated exhaustively, 2-3 fault sequences and disk-full budgets seeded in thorough); a fresh reader process judges the surviving state",
          "Exhaustive over single faults and single crash points of each sampled scenario (accessor kind x layout x encoding x operation); scenarios themselves are sampled. The oracle is the statement's own trichotomy (error class / effect in place / earlier data unchanged; after interruption complete, absent or detectably invalid).",
          "Trusts SimFS's process-interruption durability model (completed raw writes durable, user-space buffers lost; real io.Buffered*/GzipFile above the seam) and the fresh-reader oracle; power-loss reordering out of scope."),
+ "C03": ("exploration",
+         "deterministic simulation: seeded write/read/close histories (valid and off-grid writes, same or fresh handle) through the real PrecomputedIO + file and sharded accessors on SimFS, refinement against an array model",
+         "Seeded search over infos (5 data types, channels, multi-scale, 1-2 chunk sizes, raw / compressed_segmentation incl. non-cubic blocks / JPEG) x accessor kinds and options x operation histories; every read compared with the model (exact for lossless, calibrated bound for JPEG ramps); off-grid writes must raise and leave the tree unchanged. Sampling, not proof.",
+         "Trusts SimFS, the independent on-grid predicate in checks/c03.py and the JPEG tolerance calibration (max error 13 measured over the ramp family, threshold 52)."),
 }
 
 def main():
